@@ -688,6 +688,14 @@ class C06(HttpProp):
                        f"http POST av hyph=latest:{c} hyph={c} history b:1,2,3", f"http POST as hyph=latest:{c} hyph={c} snapshot chunks:40,50",
                        f"http GET snap - hyph={c} absent e", "reopen", f"http GET snap - hyph={c} absent e", f"walk {c}"]
                 out.append(Case(f"c06-fixture-{name}-{c}", ops, {"only": "sqlite", "fixture": name}, mode="http"))
+        # a slow client: the last part of the body arrives after a pause longer than any idle timer a server
+        # is likely to have — what is stored is still the whole body (in process and over a real socket)
+        out.append(Case("c06-slow-http", ["http POST av hyph=nil hyph=1 history b:1", "http POST av hyph=latest:1 hyph=1 history slow:5600:300,400",
+                                          "http GET gcv hyph=anc:1:1 hyph=1 absent e", "walk 1"], {"slow": True}, mode="http"))
+        out.append(Case("c06-slow-bin", ["boot listen=flag:1 dir=flag allow=none versions=default days=default",
+                                         "http@0 POST av hyph=nil hyph=1 history b:1", "http@0 POST as hyph=latest:1 hyph=1 snapshot slow:5600:2000,3000",
+                                         "http@0 GET snap - hyph=1 absent e", "http@0 POST av hyph=latest:1 hyph=1 history slow:5300:10,20,30",
+                                         "http@0 GET gcv hyph=anc:1:1 hyph=1 absent e", "kill"], {"only": "sqlite", "slow": True}, mode="bin"))
         # byte classes x sizes, one-byte chunkings
         classes = {"zeros": "0", "ff": "255", "digits": "49,50,51,52,53", "utf8": "195,169,226,130,172", "badutf8": "195,40,255,254",
                    "nul": "65,0,66,0,0", "quote": "39,34,92,0",
